@@ -202,11 +202,21 @@ func (r *ReaderStream) Read(p []byte) (int, error) {
 // manner that's safe for the assembler (IE: it doesn't block).
 func (r *ReaderStream) Close() error {
 	r.current = nil
+	if r.closed {
+		return nil
+	}
 	r.closed = true
 	for {
+		// A batch handed over by the assembler and not yet acknowledged
+		// (everything received since the first Read) must be acknowledged
+		// before waiting for the next one, or both sides wait forever.
+		if r.first {
+			r.first = false
+		} else {
+			r.done <- true
+		}
 		if _, ok := <-r.reassembled; !ok {
 			return nil
 		}
-		r.done <- true
 	}
 }
